@@ -6,6 +6,11 @@
 //	bsim replay <file>                       execute a replay file in a fresh process
 //	bsim selftest determinism [props...]     determinism self-test
 //	bsim selftest model                      validate the reference model on the repository's samples
+//
+// cryptocustomrand=1: a nil reader handed to crypto/ed25519.GenerateKey reads crypto/rand.Reader,
+// which the simulator replaces for callers that rely on the default entropy source.
+//
+//go:debug cryptocustomrand=1
 package main
 
 import (
